@@ -35,7 +35,7 @@ concurrent connections; per connection a list of call sizes sent one way and rep
 other way at the same time, sizes from 1 B to 1 MiB with most above the kernel socket buffer in \
 the large lane; reader pacing: 0..4 cooperative yields between receives on either side). Oracle: \
 the receiver decodes exactly the sent sequence (index, length and every byte of a position-dependent \
-pattern), connection ids are pairwise distinct, a listener built from an inherited descriptor (handed over in blocking mode) is non-blocking like a bound one. Cancellation scenario = a call of generated size \
+pattern), connection ids are pairwise distinct (within a scenario, and across 2..16 threads that construct tens of thousands of connections at the same moment), a listener built from an inherited descriptor (handed over in blocking mode) is non-blocking like a bound one. Cancellation scenario = a call of generated size \
 (64 KiB..1 MiB) is sent while the peer does not read, the send future is polled by hand until it is \
 Pending, the peer reads a generated number of bytes, the future is polled again and then dropped; \
 afterwards a second call is sent normally while the peer reads everything. Oracle: the peer's \
@@ -159,6 +159,48 @@ pub enum Transport {
 pub enum Scenario {
     Transfer { rt: Rt, transport: Transport, plans: Vec<Plan> },
     Cancel { rt: Rt, size: usize, peer_reads: usize, second_size: usize },
+    /// `threads` threads, released together, each construct `per_thread` connections (on socket
+    /// pairs for the first few, on in-memory transports for the rest): every identifier handed
+    /// out in the process during the scenario must be distinct.
+    Ids { threads: usize, per_thread: usize },
+}
+
+fn run_ids(threads: usize, per_thread: usize) -> Result<(bool, usize), String> {
+    let barrier = std::sync::Barrier::new(threads);
+    let all: Vec<Vec<usize>> = std::thread::scope(|s| {
+        let hs: Vec<_> = (0..threads)
+            .map(|_| {
+                s.spawn(|| {
+                    let mut ids = Vec::with_capacity(per_thread);
+                    barrier.wait();
+                    for i in 0..per_thread {
+                        if i < 4 {
+                            if let Ok((a, b)) = StdUnixStream::pair() {
+                                if let (Ok(a), Ok(b)) = (smol::Async::new(a), smol::Async::new(b)) {
+                                    ids.push(Connection::new(zlink_smol::unix::Stream::from(a)).id());
+                                    ids.push(Connection::new(zlink_smol::unix::Stream::from(b)).id());
+                                    continue;
+                                }
+                            }
+                        }
+                        let (sock, _h) = vcommon::sim::SimSocket::new();
+                        ids.push(Connection::new(sock).id());
+                    }
+                    ids
+                })
+            })
+            .collect();
+        hs.into_iter().map(|h| h.join().unwrap_or_default()).collect()
+    });
+    let mut flat: Vec<usize> = all.into_iter().flatten().collect();
+    let n = flat.len();
+    flat.sort_unstable();
+    let dups = flat.windows(2).filter(|w| w[0] == w[1]).count();
+    if dups > 0 {
+        let first = flat.windows(2).find(|w| w[0] == w[1]).map(|w| w[0]).unwrap_or(0);
+        return Err(format!("connection ids are not pairwise distinct: {dups} of {n} identifiers handed out by {threads} threads constructing connections at the same time are duplicates (e.g. {first})"));
+    }
+    Ok((false, n))
 }
 
 fn sock_path(tag: u64) -> PathBuf {
@@ -486,6 +528,9 @@ fn scenarios(ctx: &Ctx) -> Vec<Scenario> {
         let second_size = [5usize, 300, 70_000][((r >> 12) % 3) as usize];
         v.push(Scenario::Cancel { rt, size, peer_reads, second_size });
     }
+    for (threads, per_thread) in [(2usize, 40_000usize), (8, 25_000), (16, 10_000)] {
+        v.push(Scenario::Ids { threads, per_thread: ctx.tier.pick(per_thread, per_thread * 4) });
+    }
     v
 }
 
@@ -504,6 +549,7 @@ fn run_scenario(sc: &Scenario, tag: u64, deadline: Duration) -> Option<Result<(b
                 }
                 .map(|()| (false, 0)),
                 Scenario::Cancel { rt, size, peer_reads, second_size } => run_cancel(*rt, *size, *peer_reads, *second_size),
+                Scenario::Ids { threads, per_thread } => run_ids(*threads, *per_thread),
             });
             let _ = tx.send(match r {
                 Ok(r) => r,
@@ -536,6 +582,10 @@ fn classify(sc: &Scenario, stats: &mut Stats) -> bool {
         Scenario::Cancel { rt, .. } => {
             stats.class(&format!("cancel:{rt:?}"));
             false
+        }
+        Scenario::Ids { threads, .. } => {
+            stats.class("ids:connections-constructed-on-several-threads-at-once");
+            *threads >= 2
         }
     }
 }
@@ -580,6 +630,7 @@ pub fn run(ctx: &Ctx) -> i32 {
                 Some(Err(msg)) => {
                     let sig = match sc {
                         Scenario::Cancel { .. } => "send-cancelled-after-partial-write",
+                        Scenario::Ids { .. } => "connection-ids-not-distinct",
                         Scenario::Transfer { .. } if msg.contains("ids are not") => "connection-ids-not-distinct",
                         Scenario::Transfer { .. } if msg.contains("blocking mode") => "inherited-listener-left-blocking",
                         Scenario::Transfer { .. } => "transfer-lost-or-corrupted",
@@ -614,7 +665,11 @@ pub fn replay(_lane: &str, case: serde_json::Value) -> Result<(), Fail> {
             None => println!("round {round}: deadline expired"),
             Some(Ok(info)) => println!("round {round}: ok {info:?}"),
             Some(Err(m)) => {
-                let sig = if matches!(sc, Scenario::Cancel { .. }) { "send-cancelled-after-partial-write" } else { "transfer-lost-or-corrupted" };
+                let sig = match sc {
+                    Scenario::Cancel { .. } => "send-cancelled-after-partial-write",
+                    Scenario::Ids { .. } => "connection-ids-not-distinct",
+                    _ => "transfer-lost-or-corrupted",
+                };
                 return Err(Fail::new(sig, format!("round {round}: {m}")));
             }
         }
